@@ -974,6 +974,42 @@ def ms_bounds(rng, n):
     return out
 
 
+def gap_bounds(rng, n):
+    """C04 / C08 / C07: several lower bounds (forward) or upper bounds (backward) of one task, the binding one coming from
+    the neighbour that is NOT the last to end / first to start: predecessors of different length with gaps that reverse
+    their order, listed in either order, on-start edges among them; backward: successors with different gaps."""
+    out = []
+    for i in range(n):
+        G = rng.choice([3600, 1800])
+        start = datetime(2025, 9, 1)
+        alap = rng.random() < 0.4
+        p = Proj(start=start, G=G, length="+6w", alap=alap)
+        rs = [p.add_res("r%d" % k) for k in range(3)]
+        if not alap:
+            a = p.add_task("a", effort=G * rng.randint(6, 16), alloc=[rs[0]])
+            b = p.add_task("b", effort=G * rng.randint(1, 4), alloc=[rs[1]])
+            c = p.add_task("c", effort=G * rng.randint(2, 9), alloc=[rs[2]]) if rng.random() < 0.5 else None
+            deps = [(a, False, G * rng.choice([0, 0, 1])), (b, rng.random() < 0.2, G * rng.choice([8, 24, 30]))]
+            if c is not None:
+                deps.append((c, False, G * rng.choice([0, 4, 12])))
+            rng.shuffle(deps)
+            p.add_task("t", effort=G * rng.randint(1, 6), alloc=[rng.choice(rs)], deps=deps)
+            if rng.random() < 0.5:
+                p.add_task("m", milestone=True, deps=list(reversed(deps)))
+        else:
+            t = p.add_task("t", effort=G * rng.randint(1, 6), alloc=[rng.choice(rs)])
+            ends = [start + timedelta(days=rng.randint(18, 22), hours=17), start + timedelta(days=rng.randint(24, 30), hours=rng.choice([12, 17]))]
+            succs = []
+            for k, (nm, eff) in enumerate((("x", rng.randint(1, 3)), ("y", rng.randint(6, 14)), ("z", rng.randint(2, 5)))):
+                if k == 2 and rng.random() < 0.5:
+                    break
+                sx = p.add_task(nm, effort=G * eff, alloc=[rs[k]], deps=[(t, False, G * rng.choice([0, 2, 10, 30]))])
+                sx.end = rng.choice(ends)
+                succs.append(sx)
+        out.append(("gapb%04d" % i, p))
+    return out
+
+
 def teams_alts(rng, n):
     """C03: team allocations (same instants), alternatives (exactly one candidate set), sub-slot efforts."""
     out = []
